@@ -24,6 +24,9 @@ type Clause struct {
 	Loop   int
 	File   string
 	Line   int
+	// untagged clause of a contract that serves some property other than the two whole-module sweeps (C18, C20): it is
+	// checked under those properties, and only assumed in the sweeps
+	SkipSweep bool
 }
 
 type Contract struct {
